@@ -235,7 +235,7 @@ PairIsLR ==
 \* the raw-name statement of C05: two siblings whose stored names differ only in a final L/R preceded by
 \* spaces or hyphens (and are not involved in any other collision) are merged
 SimplePairMerged ==
-  (done /\ ~IsDir /\ Len(sibs) = 2) =>
+  (done /\ ~IsDir /\ ~NoCombine /\ Len(sibs) = 2) =>
      LET a == Stereo(MakeExport(NameOf(1), TRUE))   b == Stereo(MakeExport(NameOf(2), TRUE)) IN
      (a.match /\ b.match /\ a.stem = b.stem /\ a.sep = b.sep /\ a.side # b.side) => Len(Outputs) = 1 /\ Len(Outputs[1].ch) = 2
 \* C10
